@@ -638,6 +638,37 @@ func (fc *FnCtx) runLoop(st *State, lp loopParts) []Outcome {
 		}
 		return fmt.Sprintf("%d", i)
 	}
+	// optional invariants (`loop N invariant? e`): the coupling of an abstraction variable with a
+	// loop counter (`eof == i`). When the loop is written without that counter the clause names
+	// something that does not exist: it is dropped (with a note) and the remaining invariants
+	// have to carry the proof on their own.
+	{
+		var kept []*Clause
+		for _, cl := range invs {
+			if cl.Optional {
+				n0 := len(fc.errors)
+				probe := st.clone()
+				fc.dry++
+				_ = trClause(probe, cl)
+				fc.dry--
+				unresolved := false
+				for _, e := range fc.errors[n0:] {
+					if strings.Contains(e, "unresolved identifier") {
+						unresolved = true
+					}
+				}
+				fc.errors = fc.errors[:n0]
+				if unresolved {
+					if fc.dry == 0 {
+						fc.notes = appendUnique(fc.notes, fmt.Sprintf("optional invariant of loop %d dropped (it names a variable this loop does not have): %s", lp.ord, cl.Text))
+					}
+					continue
+				}
+			}
+			kept = append(kept, cl)
+		}
+		invs = kept
+	}
 	if fc.dry == 0 && len(invs) == 0 {
 		fc.notes = append(fc.notes, fmt.Sprintf("loop %d at %s has no invariant (variables assigned in it are havoc'd)", lp.ord, fc.pos(lp.stmt)))
 	}
